@@ -390,7 +390,7 @@ class Ctx:
             elif key not in unlisted:
                 unlisted[key] = (req, obs, orc)
         # 1. direct violations of the property on the real code
-        for key, (req, obs, orc) in list(unlisted.items())[:3]:
+        for key, (req, obs, orc) in list(unlisted.items())[:1]:
             small = self.shrink(req, key) if self.harness_ok else req
             if small != req:
                 r = self.replay_request(small)
